@@ -545,6 +545,19 @@ var AncestorLoop = errors.New("ancestor loop detected")
 
 // DoAncestors calls the given function on this location and all of its ancestors in depth-first order.
 func (loc *Location) DoAncestors(ctx *Context, fn func(*Location) error) error {
+	return loc.doAncestors(ctx, fn, make(map[string]bool))
+}
+
+// doAncestors does the work for DoAncestors.  The given path has the
+// names of the locations we are currently in the middle of, which is
+// what we need to notice a parent chain that loops back (however
+// indirectly) instead of recursing forever.
+func (loc *Location) doAncestors(ctx *Context, fn func(*Location) error, path map[string]bool) error {
+	if path[loc.Name] {
+		return AncestorLoop
+	}
+	path[loc.Name] = true
+	defer delete(path, loc.Name)
 
 	parents, err := loc.getParents(ctx)
 	if err != nil {
@@ -576,7 +589,7 @@ func (loc *Location) DoAncestors(ctx *Context, fn func(*Location) error) error {
 			if err != nil {
 				return err
 			}
-			if err = p.DoAncestors(ctx, fn); err != nil {
+			if err = p.doAncestors(ctx, fn, path); err != nil {
 				return err
 			}
 		}
